@@ -42,6 +42,37 @@ def main():
         out.append('* Coq files: %s' % ', '.join('`%s`' % x for x in vlib.coq_deps('Properties_%s.v' % pid)))
         out.append('* claim: %s' % m.get('text', ''))
         out.append('* trusted / assumed: %s\n' % m.get('note', ''))
+    # translation tie
+    out.append('## 12a. Functions proved equal to the translated C text (generated from tools/c2clite.d/*.list and coq/Properties_Cxx.v)\n')
+    out.append('`tools/c2clite.py` translates these functions of `/repo` into CLite terms (`coq/GenCFuncs.v`) on every run; the theorems named in the '
+               'last column (statements in `coq/Properties_Cxx.v`, proofs in `coq/Tr*.v`) say that running the translated text returns what the '
+               'hand-written model says, for all inputs, with every memory access checked.  A function without a theorem is translated '
+               '(it can be called by the others) but not yet proved against a model.\n')
+    out.append('| list | C file | function | theorems that mention it |')
+    out.append('|---|---|---|---|')
+    props = {}
+    for f in sorted(glob.glob(os.path.join(V, 'coq', 'Properties_C*.v'))):
+        props[os.path.basename(f)[11:14]] = open(f).read()
+    ld = os.path.join(V, 'tools', 'c2clite.d')
+    nfun = nproved = 0
+    for lf in sorted(os.listdir(ld)):
+        if not lf.endswith('.list'):
+            continue
+        for line in open(os.path.join(ld, lf)):
+            w = line.split('#')[0].split()
+            if len(w) < 2:
+                continue
+            coq = w[2] if len(w) > 2 else w[1]
+            hits = []
+            for pid, txt in sorted(props.items()):
+                for m in re.finditer(r'(?:Theorem|Lemma|Corollary)\s+(\w+)\s*:(.*?)(?=\nProof\.)', txt, re.S):
+                    if re.search(r'\bF_%s\b' % re.escape(coq), m.group(2)):
+                        hits.append(m.group(1))
+            nfun += 1
+            nproved += 1 if hits else 0
+            out.append('| %s | %s | %s | %s |' % (lf, w[0], w[1] + (' (as %s)' % coq if coq != w[1] else ''), ', '.join('`%s`' % h for h in hits[:8]) + (' …' if len(hits) > 8 else '')))
+    out.append('')
+    out.append('%d functions are translated on every run, %d of them have at least one theorem against a model.\n' % (nfun, nproved))
     # seeded changes
     out.append('## 13. Seeded breaking changes and which check catches them (generated)\n')
     out.append('Each change was written by a fresh sub-agent that saw only the property text and a scratch worktree, '
